@@ -155,7 +155,7 @@ class Unmodelled(Exception):
 
 
 class Frame:
-    __slots__ = ('fid', 'body', 'block', 'stmt', 'dest', 'target', 'cont', 'loops', 'call_site', 'self_ty')
+    __slots__ = ('fid', 'body', 'block', 'stmt', 'dest', 'target', 'cont', 'loops', 'call_site', 'self_ty', 'cparams')
 
     def __init__(self, fid, body, dest, target, cont=None, call_site=None):
         self.fid = fid
@@ -168,6 +168,7 @@ class Frame:
         self.loops = {}      # header -> list of state signatures seen on this path
         self.call_site = call_site
         self.self_ty = None
+        self.cparams = None  # values of the const generic parameters of this instance
 
     def clone(self):
         f = Frame(self.fid, self.body, self.dest, self.target, self.cont, self.call_site)
@@ -175,6 +176,7 @@ class Frame:
         f.stmt = self.stmt
         f.loops = {k: list(v) for k, v in self.loops.items()}
         f.self_ty = self.self_ty
+        f.cparams = self.cparams
         return f
 
 
@@ -516,6 +518,9 @@ class Engine:
         ty = o.get('ty', '?')
         if 'promoted' in o:
             return self.promoted(o['of'], o['promoted'])
+        if 'cparam' in o:
+            v = ((st.frames[-1].cparams if st.frames else None) or {}).get(o['cparam'])
+            return C(ty, v) if v is not None else ('constx', ty, 'const param ' + o['cparam'])
         if 'closure' in o and 'fn' in o:
             return ('closure', o['closure'], ())
         if 'fn' in o:
@@ -682,6 +687,14 @@ class Engine:
         k = rv['k']
         if k == 'use':
             return self.eval_operand(st, fr, rv['a'])
+        if k == 'repeat':
+            n = rv.get('len')
+            if isinstance(n, dict):
+                n = (fr.cparams or {}).get(n.get('cparam'))
+            if not isinstance(n, int) or n > 512:
+                raise Unmodelled('array repeat of unknown length')
+            v = self.eval_operand(st, fr, rv['a'])
+            return ('array', (v,) * n)
         if k == 'bin':
             return self.binop(st, rv['op'], self.eval_operand(st, fr, rv['a']), self.eval_operand(st, fr, rv['b']))
         if k == 'un':
@@ -1019,6 +1032,9 @@ class Engine:
             return
         blocks, assigned = info[fr.block]
         lid = (fr.body.path, fr.block)
+        # a new iteration of this loop enters its inner loops afresh
+        for h2 in [h for h in fr.loops if h != fr.block and h in blocks]:
+            del fr.loops[h2]
         scal = [l for l in sorted(assigned) if self.loop_abstractable(fr.body.locals[l])]
         if fr.block not in fr.loops:
             inits = {l: st.mem[('L', fr.fid, l)] for l in scal if ('L', fr.fid, l) in st.mem}
@@ -1043,6 +1059,12 @@ class Engine:
                             # value carried into the next iteration (a term over this iteration's loopval)
                             h(self, st, fr, lid, l, inits.get(l), cur)
                         st.mem[root] = ('loopval', (lid, l), inits.get(l))
+            if len(seen) > 24:
+                # a long concrete walk over a known sequence: forget the position, the rest of the walk is generic
+                for root, cur in list(st.mem.items()):
+                    if root[0] == 'L' and root[1] == fr.fid and isinstance(cur, tuple) and cur and cur[0] == 'iter' and \
+                            cur[1] in ('seq', 'val', 'map', 'zip') and root[2] in assigned | self.iter_locals(fr.body, blocks):
+                        st.mem[root] = ('iter', 'abstract', self.purify(st, cur))
             # conditions on loop-variant terms do not carry over to the next iteration
             for c in [c for c in st.asm if mentions_loop(c, lid)]:
                 del st.asm[c]
@@ -1051,10 +1073,27 @@ class Engine:
             if rec[0] == sig:
                 raise PathEnd('loop-subsumed')
         if len(seen) >= self.loop_bound:
+            if os.environ.get('IPT_DEBUG_LOOP'):
+                a, b = dict(seen[-1][0]), dict(sig)
+                for k in sorted(set(a) | set(b)):
+                    if a.get(k) != b.get(k):
+                        print('loop-bound diff', fr.body.path, fr.block, k, str(a.get(k))[:300], '=>', str(b.get(k))[:300], file=sys.stderr)
             self.incomplete.append(('loop-bound', fr.body.path, fr.block))
             self.event(st, 'incomplete', what='loop bound reached', fn=fr.body.path)
             raise PathEnd('loop-bound')
         seen.append((sig, inits, frozenset(st.asm), symbolic))
+
+    def iter_locals(self, body, blocks):
+        """locals mutably borrowed inside the loop (the iterator advanced by `next(&mut it)`)"""
+        key = ('iterlocals', body.path, min(blocks))
+        if key not in self._loops_cache:
+            out = set()
+            for bi in blocks:
+                for s_ in body.blocks[bi]['stmts']:
+                    if s_['k'] == 'assign' and s_['rv'].get('k') == 'ref' and s_['rv'].get('mut'):
+                        out.add(s_['rv']['place']['l'])
+            self._loops_cache[key] = out
+        return self._loops_cache[key]
 
     def loop_abstractable(self, ty):
         """locals whose loop-carried value may be abstracted to a `loopval` term: scalars and plain-data ADTs
@@ -1435,11 +1474,21 @@ class Engine:
                 args[0] = mk_ref(self.temp(st, a0), ())
             elif not env_is_ref and isinstance(a0, tuple) and a0 and a0[0] == 'ref':
                 args[0] = self.load(st, a0[1], a0[2])
+        cparams = None
+        ca = (t.get('callee') or {}).get('cargs') or []
+        if ca:
+            d_ = {}
+            for nm, v in ca:
+                if isinstance(v, dict) and 'cparam' in v:
+                    v = (fr.cparams or {}).get(v['cparam'])
+                if isinstance(v, int):
+                    d_[nm] = v
+            cparams = d_ or None
         if body is not None and name not in self.opaque and not self.is_opaque(name):
             depth = len(st.frames)
             if self.use_cache:
                 snap = self.reachable_snapshot(st, args)
-                key = (name, self_ty, tuple(args), tuple(sorted(((repr(k), v) for k, v in snap.items()), key=lambda x: x[0])))
+                key = (name, self_ty, tuple(sorted(cparams.items())) if cparams else None, tuple(args), tuple(sorted(((repr(k), v) for k, v in snap.items()), key=lambda x: x[0])))
                 hit = self.call_cache.get(key, MISSING)
                 if hit is MISSING:
                     st2 = st.clone()
@@ -1448,6 +1497,7 @@ class Engine:
                     ndrop = self.dropped
                     nf2 = self.push_call(st2, body, args, dest, target, None, site)
                     nf2.self_ty = self_ty
+                    nf2.cparams = cparams
                     tr = self.run_until(st2, depth)
                     hit = None
                     if tr[0] == 'leaf' and not tr[1].asm and tr[1].pending is None and self.dropped == ndrop:
@@ -1473,6 +1523,7 @@ class Engine:
                     return None
             nf = self.push_call(st, body, args, dest, target, None, site)
             nf.self_ty = self_ty
+            nf.cparams = cparams
             tree = self.run_until(st, depth)
             if tree[0] == 'leaf':
                 # state object may differ from `st` after merging: copy back
@@ -1687,10 +1738,29 @@ def model(*names):
     return deco
 
 
+import re as _re2
+_F64_REF_OP = _re2.compile(r"^<&?(?:'[a-z_]+ )?f64 as std::ops::(Add|Sub|Mul|Div|Rem)<&?(?:'[a-z_]+ )?f64>>::(?:add|sub|mul|div|rem)$")
+
+
 def model_by_pattern(name, t):
     from . import models as _m
     if name and _m._NUM_FROM.match(name):
         return _m._num_from
+    mm = _F64_REF_OP.match(name or '')
+    if mm:
+        op = mm.group(1)
+
+        def mref(eng, st, fr, t, args, dest, target, op=op):
+            vals = []
+            for a in args:
+                a = eng.force(st, a) if isinstance(a, tuple) and a and a[0] == 'ref' else a
+                n = 0
+                while isinstance(a, tuple) and a and a[0] == 'ref' and n < 3:
+                    a = eng.load(st, a[1], a[2])
+                    n += 1
+                vals.append(a)
+            return eng.binop(st, op, vals[0], vals[1])
+        return mref
     if name in F64_METHODS:
         short = F64_METHODS[name]
 
